@@ -15,6 +15,7 @@ from __future__ import annotations
 import errno
 import json
 import os
+import random
 import shutil
 import traceback
 
@@ -238,6 +239,18 @@ class Lab:
                 op['via'] = 'bytes'
             if op['op'] == 'reopen':
                 op = {'op': 'addLoose', 'on': 'a', 'c': rng.randrange(len(pool)), 'via': 'bytes'}
+            if self.focus == 'noholes':
+                # direct-to-pack with no_holes and a single pass: known objects (rewound and truncated away) mixed with new ones
+                known = sorted(runner.conts['a'].cid(r[1]) for r in runner.conts['a'].raw().rows if runner.conts['a'].cid(r[1]) is not None)
+                newc = [c_ for c_ in range(len(pool)) if c_ not in runner.conts['a'].expected]
+                cs_ = rng.sample(known, min(len(known), rng.randint(1, 3))) + rng.sample(newc, min(len(newc), rng.randint(1, 3)))
+                rng.shuffle(cs_)
+                if cs_:
+                    op = {'op': 'addPacked', 'on': 'a', 'cs': cs_, 'compress': rng.random() < 0.5, 'no_holes': True, 'read_twice': rng.random() < 0.25,
+                          'via': 'bytes', 'short': 64}
+            if 'fault' in self.parts and (self.focus == 'read' or (self.focus == '' and rng.random() < 0.1)):
+                op = {'op': 'read', 'on': 'a', 'style': rng.choice(['content', 'content_skip', 'meta', 'has', 'list', 'single', 'streams']),
+                      'ks': rng.sample(range(len(pool)), len(pool))}
             rc = runner.conts['a']
             self.src = None
             if op['op'] == 'import':
@@ -255,7 +268,10 @@ class Lab:
             rc.close()
             # every child opens a fresh handle (no cached pack id): tell the model
             runner._ask('store op a reopen')  # pylint: disable=protected-access
-            self._target(rng, runner, rc, cfg, pool, scratch, op)
+            if op['op'] == 'read':
+                self._target_read(rc, cfg, pool, scratch, op)
+            else:
+                self._target(rng, runner, rc, cfg, pool, scratch, op)
         finally:
             if runner is not None:
                 runner.close()
@@ -368,6 +384,69 @@ class Lab:
                 self._crash_point(runner, rc, cfg, pool, scratch, op, args, k, events, keep_k, univ, model_prefix, kind, expected_after)
             if 'fault' in self.parts and k < n:
                 self._fault_point(runner, rc, cfg, pool, scratch, op, args, k, events, keep, univ, model_prefix, kind, expected_after)
+
+    def _target_read(self, rc, cfg, pool, scratch, op):
+        """a read-type operation with one failing I/O call: it raises, or it answers as if nothing had failed (C17)"""
+        self.bump('target.read')
+        self.bump('target.read.' + op['style'])
+        self.src = None
+        univ = list(range(len(pool)))
+        keep = sorted(rc.expected)
+        tdir = os.path.join(scratch, 'trace')
+        _copy(rc.folder, tdir)
+        _run_op_child(tdir, cfg, pool, op, 'trace', -1, os.path.join(scratch, 'trace.log'), os.path.join(scratch, 'trace.out'), None)
+        try:
+            out = json.load(open(os.path.join(scratch, 'trace.out')))
+        except Exception:  # pylint: disable=broad-except
+            self.breaks.append({'where': 'traced read produced no result', 'model': '', 'real': '', 'theorem_or_correspondence': 'harness', 'case': {'op': op}})
+            return
+        want = str(out.get('out', ''))
+        if not want.startswith('read='):
+            self.failures.append({'signature': 'read-raised', 'text': f'{op["style"]} read raised in a fault-free run: {want[:200]}', 'replay': self._replay(op)})
+            return
+        # the fault-free answer itself against the plain map
+        ans = json.loads(want[5:])
+        if op['style'] != 'list':
+            for k in op['ks']:
+                got = ans.get(str(k))
+                present = got is not None and got is not False
+                if present != (k in rc.expected) and not (op['style'] == 'content_skip' and k not in rc.expected):
+                    self.failures.append({'signature': 'read-wrong', 'text': f'{op["style"]} read reports cid {k} as {got}, the map says {"present" if k in rc.expected else "absent"}',
+                                          'replay': self._replay(op)})
+                    return
+        events, _s, _f = read_log(os.path.join(scratch, 'trace.log'))
+        n = len(events)
+        self.sample = {'op': dict(op), 'cfg': cfg.as_dict(), 'raw_events': n, 'tokens': [str(e[:2]) for e in events[:30]]}
+        points = list(range(n))
+        if len(points) > self.max_points:
+            points = sorted(random.Random(self.case_id).sample(points, self.max_points))
+        for k in points:
+            d = os.path.join(scratch, f'fault{k}')
+            _copy(rc.folder, d)
+            outp = os.path.join(scratch, f'fault{k}.out')
+            _run_op_child(d, cfg, pool, op, 'fault', k, os.path.join(scratch, f'fault{k}.log'), outp, None)
+            self.bump('fault_points')
+            try:
+                o = json.load(open(outp))
+            except Exception:  # pylint: disable=broad-except
+                o = {'out': 'child-died'}
+            got = str(o.get('out', ''))
+            label = f'I/O call #{k} {events[k][:2]} of a {op["style"]} read failed'
+            if got.startswith('raised') or got.startswith('child'):
+                self.bump('fault_outcome.raised')
+            else:
+                self.bump('fault_outcome.completed')
+                if got != want:
+                    a, b = json.loads(got[5:]), ans
+                    bad = [kk for kk in sorted(set(a) | set(b)) if a.get(kk) != b.get(kk)]
+                    self.failures.append({'signature': f'fault-read-{op["style"]}',
+                                          'text': f'{label}: the call returned normally but answers differently from a fault-free run for {bad[:4]} '
+                                                  f'(e.g. {bad[0]}: {a.get(bad[0])} instead of {b.get(bad[0])})' if bad else f'{label}: different answer',
+                                          'replay': self._replay(op, k, 'fault-read')})
+            probs = self._oracle(d, pool, cfg, set(keep), univ, False, label)
+            for p in probs[:1]:
+                self.failures.append({'signature': 'fault-read-store', 'text': p, 'replay': self._replay(op, k, 'fault-read')})
+            shutil.rmtree(d, ignore_errors=True)
 
     def _replay(self, op, k=None, what=None):
         return {'kind': 'lab', 'prop': self.prop, 'case_id': self.case_id, 'parts': list(self.parts), 'focus': self.focus, 'op': op, 'point': k, 'what': what,
